@@ -47,6 +47,27 @@ def _split_rev(v):
     return base, (sep + r)
 
 
+def parse_any(s):
+    """atom(s), plain or with conditional USE deps (transitive_use_atom: intersects() is inherited
+    and reads the same raw tokens)"""
+    from pkgcore.ebuild.atom import atom
+    try:
+        return atom(s)
+    except Exception:  # noqa: BLE001
+        return None
+
+
+def static_suffix(s):
+    """an attribute suffix with its conditional USE deps (x?, !x?, x=, !x=) removed: whatever the
+    parent's USE, a conditional dep only ADDS a constraint, so every package matching the evaluated
+    atom matches this static part"""
+    if "[" not in s:
+        return s
+    head, _, use = s.partition("[")
+    toks = [t for t in use.rstrip("]").split(",") if t[-1] not in "?="]
+    return head + ("[" + ",".join(toks) + "]" if toks else "")
+
+
 def vtext(op, v, r):
     if not op:
         return KEY
@@ -262,11 +283,18 @@ def main(chk: Check):
             vatoms[t] = (a, atom_fields(a))
     vts = [t for t in vts if t in vatoms]
     aatoms = {}
-    for s in ATTRS:
-        a = parse_plain(KEY + s)
-        if a is not None:
+    cond_attrs = []
+    for f in sorted((VERIF / "corpus" / "C05").glob("*.json")):
+        cond_attrs += json.loads(f.read_text()).get("attrs", [])
+    all_attrs = list(dict.fromkeys(cond_attrs + [static_suffix(s) for s in cond_attrs] + ATTRS))
+    statics = {}
+    for s in all_attrs:
+        st = static_suffix(s)
+        a = parse_plain(KEY + st)                   # the static part: judged by match()
+        if a is not None and parse_any(KEY + s) is not None:
             aatoms[s] = (a, atom_fields(a))
-    attrs = [s for s in ATTRS if s in aatoms]
+            statics[s] = st
+    attrs = [s for s in all_attrs if s in aatoms]
 
     first_pairs = [(ta, tb) for ta, tb in first_pairs if ta in vatoms and tb in vatoms]
     # ---- witness sets
@@ -318,7 +346,7 @@ def main(chk: Check):
     def get(t, s):
         k = (t, s)
         if k not in full:
-            a = parse_plain(t + s)
+            a = parse_any(t + s)
             full[k] = None if a is None else (a, atom_fields(a), len(full))
         return full[k]
 
@@ -350,6 +378,8 @@ def main(chk: Check):
         has = bool(vw) and bool(aw)
         if has == res:
             continue
+        if (statics[sa] != sa or statics[sb] != sb) and not res:
+            continue      # conditional USE deps: only "no package even for the static parts" is judged
         ex = {"a": ta + sa, "b": tb + sb, "intersects": res,
               "witness": (f"{KEY}-{vpk[min(vw)][0]}", apk[min(aw)][0]) if has else None}
         fva, fvb = vatoms[ta][1], vatoms[tb][1]
